@@ -1,6 +1,7 @@
 import Oracle.Proto
 import Oracle.Registry
 import Oracle.Address
+import Oracle.RefReuse
 /-! Oracle suites of property C12. -/
 namespace Oracle.C12
 
@@ -9,7 +10,8 @@ def suites : List (String × Suite) := [
   ("registry-judge", Oracle.Registry.judge),
   ("registry-facts", Oracle.Registry.factsSuite),
   ("address", Oracle.Address.model),
-  ("address-spec", Oracle.Address.spec)
+  ("address-spec", Oracle.Address.spec),
+  ("refreuse", Oracle.RefReuse.suite)
 ]
 
 end Oracle.C12
